@@ -894,8 +894,8 @@ func init() {
 	register(&Rule{ID: "C04.resolved", Floor: 1, Also: []string{"C05"},
 		Text: "the decision of MemFS.Rename whether the destination lies below the source compares the paths the walk resolved (PathIterator.Path() of the walk results), never the absolute form of the caller's strings: two lexically different names can reach the same entry through a symbolic link to a directory",
 		Run:  c04Resolved})
-	register(&Rule{ID: "C06.recheck", Floor: 3, Also: []string{"C01"},
-		Text: "where a creating call of MemFS finds, under the directory lock, that the name it is about to create exists after all, it answers 'file exists' (the answer of the sequential order in which the other call came first): the error of that branch is the exists-class entry of the error table (or its Windows counterpart), never the stale status of the unlocked walk",
+	register(&Rule{ID: "C06.recheck", Floor: 4, Also: []string{"C01"},
+		Text: "where a creating call of MemFS finds, under the directory lock, that the name it is about to create exists after all, it answers 'file exists' (the answer of the sequential order in which the other call came first): the error of that branch is the exists-class entry of the error table (or its Windows counterpart), never the stale status of the unlocked walk; MkdirAll, for which an existing directory is success, does not take a name that appeared below the locked directory for the whole path: from that outcome no success return is reachable without a new walk",
 		Run:  c06Recheck})
 	register(&Rule{ID: "C11.holders", Floor: 6,
 		Text: "the per-view state holders embedded in MemFS (current directory, current user, umask) keep their state in their own fields: their methods neither store to a package-level variable nor read one that some function writes, so a setter called on one view cannot reach another view or the parent",
@@ -1055,6 +1055,120 @@ func c04Resolved(rc *RuleCtx) {
 	}
 }
 
+// MkdirAll creates what is missing and succeeds when the whole path exists - but a name that appeared below the
+// directory it locked, after the walk, is not "the whole path exists": the remaining directories still have to be
+// created. From the exists outcome of the re-check no success return may be reachable without a new walk.
+func c06RecheckMkdirAll(rc *RuleCtx, a *lockAnalysis, f *ssa.Function) {
+	walkBlocks := map[*ssa.BasicBlock]bool{}
+	eachCall(f, func(ci ssa.CallInstruction) {
+		if fn := calleeFunc(ci); fn != nil && nm(fn) == "searchNode" {
+			walkBlocks[ci.Block()] = true
+		}
+	})
+	ei := errResultIndex(f.Signature)
+	n := 0
+	eachInstr(f, func(in ssa.Instruction) {
+		iff, ok := in.(*ssa.If)
+		if !ok {
+			return
+		}
+		c, truth := normCond(iff.Cond, true)
+		bo, ok := c.(*ssa.BinOp)
+		if !ok || (bo.Op != token.NEQ && bo.Op != token.EQL) {
+			return
+		}
+		var lk *ssa.Lookup
+		for _, pair := range [][2]ssa.Value{{bo.X, bo.Y}, {bo.Y, bo.X}} {
+			if isNilConst(pair[1]) {
+				if l, ok := stripIface(resolve1(pair[0])).(*ssa.Lookup); ok {
+					lk = l
+				}
+				if l, ok := pair[0].(*ssa.Lookup); ok {
+					lk = l
+				}
+			}
+		}
+		if lk == nil {
+			return
+		}
+		ld, ok := stripCT(lk.X).(*ssa.UnOp)
+		if !ok || ld.Op != token.MUL {
+			return
+		}
+		fad, ok := ld.X.(*ssa.FieldAddr)
+		if !ok || fieldName(fad.X.Type(), fad.Field) != "children" {
+			return
+		}
+		st := a.stateBefore(lk)
+		if st == nil || len(st.must) == 0 {
+			return
+		}
+		existsSucc := 0
+		if (bo.Op == token.NEQ) != truth {
+			existsSucc = 1
+		}
+		start := iff.Block().Succs[existsSucc]
+		n++
+		cons := fmt.Sprintf("%s re-check#%d: a name found below the locked directory is not success", funcName(f), n)
+		var path []*ssa.BasicBlock
+		onPath := map[*ssa.BasicBlock]bool{}
+		var bad *ssa.Return
+		var walk func(b *ssa.BasicBlock)
+		walk = func(b *ssa.BasicBlock) {
+			if bad != nil || onPath[b] || walkBlocks[b] {
+				return
+			}
+			onPath[b] = true
+			path = append(path, b)
+			defer func() { delete(onPath, b); path = path[:len(path)-1] }()
+			last := b.Instrs[len(b.Instrs)-1]
+			switch x := last.(type) {
+			case *ssa.Return:
+				if ei >= 0 && ei < len(x.Results) {
+					for _, o := range originsOf(x.Results[ei]) {
+						if k, isC := o.(*ssa.Const); isC && k.IsNil() {
+							bad = x
+						}
+					}
+				}
+				return
+			case *ssa.If:
+				for k, s := range b.Succs {
+					v, t := normCond(x.Cond, k == 0)
+					for i := 0; i < 4; i++ {
+						ph, isPhi := v.(*ssa.Phi)
+						if !isPhi {
+							break
+						}
+						r := phiOnPath(ph, append(append([]*ssa.BasicBlock{iff.Block()}, path...), s))
+						if r == nil {
+							break
+						}
+						v, t = normCond(r, t)
+					}
+					if kc, isC := v.(*ssa.Const); isC && kc.Value != nil && kc.Value.Kind() == constant.Bool && constant.BoolVal(kc.Value) != t {
+						continue
+					}
+					walk(s)
+				}
+				return
+			}
+			for _, s := range b.Succs {
+				walk(s)
+			}
+		}
+		walk(start)
+		if bad != nil {
+			rc.bad(cons, iff.Pos(), "when the name turns out to exist below the directory that was locked (created by another call after the walk), the call can answer success ("+rc.C.pos(bad.Pos())+") without resolving the path again: MkdirAll reports success although the rest of the path was not created")
+		} else {
+			rc.good(cons, iff.Pos(), "the exists outcome leads to a new walk (or an error), never straight to success")
+		}
+	})
+	if n == 0 {
+		rc.bad(funcName(f)+" re-check", f.Pos(), "MkdirAll creates directories without looking, under the lock of the directory, whether the name appeared since the walk")
+	}
+}
+
 func c06Recheck(rc *RuleCtx) {
 	existsClass := map[string]bool{"avfs.ErrFileExists": true, "avfs.ErrWinAlreadyExists": true, "avfs.ErrWinFileExists": true, "avfs.ErrWinAccessDenied": true}
 	a := lockAnalysisFor(rc.C)
@@ -1071,8 +1185,12 @@ func c06Recheck(rc *RuleCtx) {
 				}
 			}
 		})
-		if !creates || f.Name() == "MkdirAll" {
-			continue // MkdirAll: "if name is already a directory, MkdirAll does nothing and returns nil"
+		if !creates {
+			continue
+		}
+		if f.Name() == "MkdirAll" {
+			c06RecheckMkdirAll(rc, a, f)
+			continue
 		}
 		n := 0
 		eachInstr(f, func(in ssa.Instruction) {
@@ -1389,6 +1507,22 @@ func c01Cwd(rc *RuleCtx) {
 				a := callArgs(ci)
 				if len(a) != 1 {
 					return
+				}
+				// a call that fails must not have moved the working directory (open directories included: the exported
+				// operations of the file systems are covered by C05.atomic)
+				if ei := errResultIndex(g.Signature); ei >= 0 {
+					for _, r := range returnsOf(g) {
+						mayFail := false
+						for _, o := range originsOf(r.Results[ei]) {
+							if k, isC := o.(*ssa.Const); !isC || !k.IsNil() {
+								mayFail = true
+							}
+						}
+						if mayFail && feasiblyReaches(ci, r, 4000) {
+							rc.bad(cons, ci.Pos(), "after the working directory was set the call can still return an error ("+rc.C.pos(r.Pos())+"): a refused Chdir has moved the working directory")
+							return
+						}
+					}
 				}
 				if why, ok := absolutePathValue(rc, pk, a[0], 0); ok {
 					rc.good(cons, ci.Pos(), why)
@@ -3004,7 +3138,7 @@ func init() {
 	register(&Rule{ID: "C09.errfamily", Floor: 2, Also: []string{"C17"},
 		Text: "the errors a read-only file system refuses with belong to the emulated OS: in rofs.New a Windows error constant is stored into the wrapper's error fields only under the test that the base's OS type IS Windows (an equality with avfs.OsWindows), every other type (Linux, Darwin) keeps the POSIX errors - otherwise a refusal on a Unix-typed file system is not a permission-class error",
 		Run:  c09ErrFamily})
-	register(&Rule{ID: "C16.poolnew", Floor: 1,
+	register(&Rule{ID: "C16.poolnew", Floor: 1, Also: []string{"C08"},
 		Text: "every Get on the copy pool that finds it empty allocates a buffer of its own: the New function of the pool returns the address of a slice allocated inside that function, not of a variable captured from the constructor (which all buffers would share)",
 		Run:  c16PoolNew})
 }
